@@ -668,21 +668,6 @@ func (g *Gen) B(d int) *GExpr {
 	return bin(TB, op, g.B(d-1), g.B(d-1))
 }
 
-// exprOf generates an expression of the given type.
-func (g *Gen) exprOf(t GType, d int) *GExpr {
-	switch t {
-	case TS:
-		return g.S(d, "")
-	case TN:
-		return g.N(d, "")
-	case TB:
-		return g.boolAtom(d)
-	case TL:
-		return g.L(d, "")
-	}
-	return g.J(d)
-}
-
 func (g *Gen) aggExpr(d int) *GExpr {
 	r := g.r
 	var e *GExpr
